@@ -58,3 +58,6 @@ def check_hex(ctx):
     ctx.record(sub, cases, set(zip(cases, impl)),
                "hexify on all byte values / lengths 0..1000; unhexify on valid (both cases), truncated, bad-char-at-every-position strings with len below/at/above strlen/2; non-trivial = distinct (case, result)",
                samples=[cases[0][:80], cases[-1]])
+
+
+SUBCHECKS = {"C17": [check_hex], "C15": [check_hex]}
